@@ -3,6 +3,7 @@ package protofields
 import (
 	"strings"
 
+	apb "github.com/google/fhir/go/proto/google/fhir/proto/annotations_go_proto"
 	dtpb "github.com/google/fhir/go/proto/google/fhir/proto/r4/core/datatypes_go_proto"
 	bcrpb "github.com/google/fhir/go/proto/google/fhir/proto/r4/core/resources/bundle_and_contained_resource_go_proto"
 	"github.com/iancoleman/strcase"
@@ -123,7 +124,13 @@ func StringValueFromCodeField(message proto.Message) (string, bool) {
 		field := reflect.Descriptor().Fields().ByName(protoreflect.Name("value"))
 		if field.Kind() == protoreflect.EnumKind {
 			enum := reflect.Get(field).Enum()
-			code := string(field.Enum().Values().ByNumber(enum).Name())
+			value := field.Enum().Values().ByNumber(enum)
+			// Codes that are not the kebab-cased enum name ("U", "<=", ...) carry
+			// their FHIR spelling in the fhir_original_code annotation.
+			if original, ok := proto.GetExtension(value.Options(), apb.E_FhirOriginalCode).(string); ok && original != "" {
+				return original, true
+			}
+			code := string(value.Name())
 			return strcase.ToKebab(code), true
 		}
 		if field.Kind() == protoreflect.StringKind {
